@@ -110,6 +110,10 @@ def cases(ctx):
                 yield ("elem", ci, enc)
     for ki in range(7):
         yield ("p256", ki)
+    # raw 64-byte keys whose X (or Y) begins with a byte that is a point-encoding marker elsewhere (02 03 04 06 07)
+    for coord in ("x", "y"):
+        for lead in (0x02, 0x03, 0x04, 0x06, 0x07):
+            yield ("p256", "lead-%s-%02x" % (coord, lead))
     # crafted explicit curve parameters (field prime, coefficients, base point, order, cofactor) in public and private form
     for ci, cur in enumerate(STD):
         if cur.name in ("SECP112r1", "NIST256p") or not ctx.quick:
@@ -429,6 +433,22 @@ def crafted_params(cur, what, compressed):
     return D.seq(*items)
 
 
+_LEAD = {}
+
+
+def p256_leading(cls):
+    """smallest scalar d >= 2 whose public point has the wanted leading byte in X / Y (deterministic search on the reference curve)"""
+    if not _LEAD:
+        P = EC.P256.g
+        for d in range(2, 6000):
+            P = EC.P256.add(P, EC.P256.g)
+            for coord, v in (("x", P[0]), ("y", P[1])):
+                key = "lead-%s-%02x" % (coord, v >> 248)
+                if key not in _LEAD:
+                    _LEAD[key] = d
+    return _LEAD.get(cls)
+
+
 def pem_body(pem, label):
     """DER inside a PEM text with exactly the given label, decoded without the library; None if the armour is not as expected"""
     import base64
@@ -690,7 +710,12 @@ def run_case(ctx, case):
         return o
     if kind == "p256":
         cur = C.NIST256p
-        d = keyset(ctx, cur)[case[1]]
+        if isinstance(case[1], str):
+            d = p256_leading(case[1])
+            if d is None:
+                return Outcome("no-scalar-of-this-class-found", False)
+        else:
+            d = keyset(ctx, cur)[case[1]]
         Q = EC.P256.mul(d, EC.P256.g)
         vk = SigningKey.from_secret_exponent(d, curve=cur).verifying_key
         der = vk.to_der()
